@@ -10,6 +10,7 @@ import (
 	"flag"
 	"fmt"
 	"io"
+	"runtime"
 	"sort"
 	"strings"
 	"unicode/utf8"
@@ -829,6 +830,48 @@ func main() {
 					report("stream", specs[0], specs, f, specs[0])
 				}
 			}
+		}
+	}
+	// 4. soak (one batch): a long run of round trips in one process with garbage collections in between, so that the
+	// process-wide buffer and message pools go through their calibration and miss paths (which the short cases never reach)
+	if *batch == 0 {
+		rounds := 12000 // every round releases pooled buffers several times: the 42000-call calibration of utils.ByteBufferPool is passed well before the end
+		if *tier == "thorough" {
+			rounds = 150000
+		}
+		for _, p := range ps {
+			if !p.Stream {
+				continue
+			}
+			r := core.NewRand(*seed, 991, int64(len(p.Name)))
+			g := gen{r}
+			failed := false
+			for k := 0; k < rounds && !failed; k++ {
+				s := baseline(p, r)
+				for _, fc := range [][2]string{{"seq", "rand"}, {"meta", "ascii"}, {"body", "ascii"}} {
+					if r.Intn(2) == 0 {
+						t := s.Clone()
+						if vary(&t, p, fc[0], fc[1], g) {
+							s = t
+						}
+					}
+				}
+				if k%500 == 499 {
+					runtime.GC()
+					runtime.GC()
+				}
+				core.Add("soak_round_trips", 1)
+				if f := checkOne(p, s, r); f != nil {
+					failed = true
+					id := fmt.Sprintf("soak-%s-%d", p.Name, k)
+					desc := map[string]interface{}{"class": "soak", "proto": p.Name, "round": k, "spec": s.JSON()}
+					core.Begin(id, desc)
+					core.Result(core.R{ID: id, Verdict: core.Violated, FP: fmt.Sprintf("C05/%s/soak/%s", p.Name, f.symptom),
+						What: fmt.Sprintf("%s: round trip %d of a long run in one process: %s (%s)", p.Name, k, f.symptom, f.detail), Witness: f.detail, Desc: desc})
+				}
+			}
+			core.Add("evaluations", 1)
+			core.Distinct("nontrivial", p.Name+"/soak")
 		}
 	}
 	core.Finish()
